@@ -648,6 +648,10 @@ def build_unit(template_path, src_dir, verus_dir):
             em = re.search(r"except=(\S+)", s)
             if em:
                 for fname in em.group(1).split(","):
+                    am = re.search(r"(?m)^\s*//@ASSUMES[^\n]*\bfn=%s\b[^\n]*\n" % re.escape(fname), inc)
+                    if am:
+                        inc = inc[:am.start()] + inc[am.end():]
+                        continue
                     imask = code_mask(inc)
                     fs, bo, bc = find_fn(inc, imask, fname)
                     # include the attribute lines / doc comments directly above
